@@ -163,6 +163,7 @@ func verifyFunctionAliased(l *Loaded, specs *Specs, ct *Contract, localAlias map
 	w = newWorld(l, specs)
 	w.curFn = shortPkg(ct.Pkg) + "." + ct.Name
 	w.topContract = ct
+	w.topFrame = nil
 	defer func() {
 		if r := recover(); r != nil {
 			if u, ok := r.(unsupportedErr); ok {
@@ -226,6 +227,7 @@ func verifyFunctionAliased(l *Loaded, specs *Specs, ct *Contract, localAlias map
 	}
 	fr.entry = st.clone()
 	w.topEntry = fr.entry
+	w.topFrame = fr
 	entryEnv := w.contractEnv(fr, fr.entry, fr.entry)
 	for _, rq := range ct.Requires {
 		w.sc.assume(w.evalBool(entryEnv, rq.Expr))
